@@ -21,7 +21,9 @@
 EXTENDS Aio, P_Scope, Json
 
 CONSTANTS Ops, MaxOps, MaxEnv, EnvKinds, MaxDepth,
-          Shields, Deadlines, Delays, Cleanups, Pres
+          Shields, Deadlines, Delays, Cleanups, Pres,
+          ViaSetter   \* subset of {0, 1}: 1 = the deadline is assigned through the setter BEFORE the scope
+                      \* is entered (no timer may be armed then: the scope is not active)
 
 VARIABLES L,         \* the shared Event: [flag, waiters]
           E, hist, pst, pbad
@@ -106,8 +108,8 @@ ClientChoose(t) ==
             /\ UNCHANGED <<L, E>>
      IN
      \/ /\ n < MaxOps /\ "open" \in Ops /\ d0 < MaxDepth
-        /\ \E sh \in Shields, dl \in Deadlines, pre \in Pres, cl \in Cleanups :
-             open("plain", sh, dl, pre, cl, "open", sh, dl, pre + 2 * cl)
+        /\ \E sh \in Shields, dl \in Deadlines, pre \in Pres, cl \in Cleanups, vs \in ViaSetter :
+             open("plain", sh, dl, pre, cl, "open", sh, dl, pre + 2 * cl + 8 * vs)
      \/ /\ n < MaxOps /\ "openf" \in Ops /\ d0 < MaxDepth
         /\ \E sh \in Shields, dly \in Delays : open("fail", sh, K.now + dly, 0, 0, "openf", sh, dly, 0)
      \/ /\ n < MaxOps /\ "openm" \in Ops /\ d0 < MaxDepth
